@@ -10,7 +10,7 @@ EXPLANATION = ("Every constraint graph on n <= 5 variables (each possible binary
                "and pseudo links, acyclic, every constraint-sharing pair in ancestor/descendant relation and directly linked, "
                "node constraints == constraints on its variable, no exception). Structural exploration: each path = one graph.")
 ASSUMPTIONS = ["constraints are neutral relations", "variable names v0..v4; insertion order lexical / reversed / rotated"]
-BOUNDS = {"quick": "all graphs on n <= 4 vertices (+ optional ternary constraint), n = 5 without ternary; concrete chains of 6, 40, 600 and 1200 variables (above the interpreter's default recursion limit)",
+BOUNDS = {"quick": "all graphs on n <= 4 vertices (+ optional ternary constraint), n = 5 without ternary; all graphs on 2-3 vertices with an optional unary constraint on each vertex; concrete chains of 6, 40, 600 and 1200 variables (above the interpreter's default recursion limit)",
           "thorough": "all graphs on n <= 5 vertices with and without a ternary constraint, 3 insertion orders; concrete chains of 1000 and 2000 variables"}
 OUTSIDE = ("graphs above 5 vertices in general; for the 'long chains up to thousands of variables' part of the quantifier only the listed "
            "concrete chain lengths are executed (a concrete probe, not a solver decision: symbolic execution cannot scale a loop whose "
@@ -22,6 +22,9 @@ def jobs(tier):
     out = []
     for n in (1, 2, 3, 4):
         out.append({"name": "n%d" % n, "n": n, "ternary": n >= 3, "orders": ["lexical", "reversed"]})
+    # unary constraints (each vertex optionally carries one), also on isolated variables
+    for n in (2, 3):
+        out.append({"name": "n%d-unary" % n, "n": n, "ternary": False, "orders": ["lexical", "reversed"], "unary": True})
     out.append({"name": "n5", "n": 5, "ternary": False, "orders": ["lexical"]})
     out.append({"name": "chains", "chain": True, "lengths": [6, 40, 600, 1200]})
     if tier == "thorough":
@@ -61,6 +64,10 @@ def run(eng, p):
         scopes["e%d" % i] = [a, b]
     if tern:
         scopes["t0"] = list(tern)
+    if p.get("unary"):
+        for nm in names:
+            if eng.choose(2, "unary_" + nm):
+                scopes["u_" + nm] = [nm]
     for cn, sc in scopes.items():
         dcop.add_constraint(NeutralRelation([V[v] for v in sc], name=cn))
     eng.notes["outcome"] = {"n": n, "scopes": scopes if n <= 6 else len(scopes), "insertion": ins if n <= 6 else "lexical"}
